@@ -77,7 +77,7 @@ vharness! {
             let w = store.key_size() as usize;
             assert!(w >= 8 || id < (1u64 << (8 * w)), "VERIF: indexed store value id does not fit its key width");
             kani::cover!(w == 3, "3 byte keys");
-            kani::cover!(w == 1 && id == 255, "last one byte id");
+            kani::cover!(w == 1 && id == 254, "last one byte id");
             std::mem::forget(store);
         }
     }
